@@ -403,7 +403,6 @@ static int do_next(cron_expr* expr, struct tm* calendar, unsigned int dot) {
     int* resets = NULL;
     int* empty_list = NULL;
     unsigned int second = 0;
-    unsigned int update_second = 0;
     unsigned int minute = 0;
     unsigned int update_minute = 0;
     unsigned int hour = 0;
@@ -424,11 +423,11 @@ static int do_next(cron_expr* expr, struct tm* calendar, unsigned int dot) {
     }
 
     second = calendar->tm_sec;
-    update_second = find_next(expr->seconds, CRON_MAX_SECONDS, second, calendar, CRON_CF_SECOND, CRON_CF_MINUTE, empty_list, &res);
+    find_next(expr->seconds, CRON_MAX_SECONDS, second, calendar, CRON_CF_SECOND, CRON_CF_MINUTE, empty_list, &res);
     if (0 != res) goto return_result;
-    if (second == update_second) {
-        push_to_fields_arr(resets, CRON_CF_SECOND);
-    }
+    /* the seconds must restart from their minimum whenever a higher order field moves forward,
+     * also when they have just been advanced themselves (there is no recursion for this field) */
+    push_to_fields_arr(resets, CRON_CF_SECOND);
 
     minute = calendar->tm_min;
     update_minute = find_next(expr->minutes, CRON_MAX_MINUTES, minute, calendar, CRON_CF_MINUTE, CRON_CF_HOUR_OF_DAY, resets, &res);
